@@ -227,6 +227,8 @@ pub fn write_number_text(f: f64, ch: &mut Ch) -> String {
             } else {
                 format!("{}", exp.abs())
             };
+            // <exp> := ("e"|"E") ["+"|"-"] <digits>, and <digits> admits '_' after its first digit
+            let expdigits = underscores(&expdigits, ch);
             if b.is_empty() {
                 format!("{sign}{a}{e}{esign}{expdigits}")
             } else {
@@ -243,7 +245,7 @@ pub fn write_number_text(f: f64, ch: &mut Ch) -> String {
             } else {
                 ""
             };
-            format!("{sign}{}e{esign}{}", underscores(&digits, ch), e10.abs())
+            format!("{sign}{}e{esign}{}", underscores(&digits, ch), underscores(&e10.abs().to_string(), ch))
         }
         // shifted point
         _ => {
@@ -251,7 +253,7 @@ pub fn write_number_text(f: f64, ch: &mut Ch) -> String {
                 let (a, b) = digits.split_at(2);
                 let e10 = exp - 1;
                 let esign = if e10 < 0 { "-" } else { "" };
-                format!("{sign}{}.{}E{esign}{}", a, underscores(b, ch), e10.abs())
+                format!("{sign}{}.{}E{esign}{}", a, underscores(b, ch), underscores(&e10.abs().to_string(), ch))
             } else {
                 canonical.clone()
             }
